@@ -99,10 +99,24 @@ class State(object):
       (a if c.get_id() in self.ax else g).append(c)
     return g, a
 
-  def harr(self, key, sort):
-    """Heap array for field key; created unconstrained (arbitrary pre-state) on first use."""
+  def harr(self, key, sort, is_ref=False):
+    """Heap array for field key; created unconstrained (arbitrary pre-state) on first use.
+
+    Pre-state reference fields only hold pre-existing objects (refs in 0..ALLOC_BASE-1): objects allocated during the
+    verified activation are fresh."""
     a = self.heap.get(key)
     if a is None:
       a = z3.Const('H0_%s_%s' % key, z3.ArraySort(z3.IntSort(), sort))
       self.heap[key] = a
+      r = z3.Int('h0r')
+      if is_ref and sort == z3.IntSort():
+        self.axiom(z3.ForAll([r], z3.And(z3.Select(a, r) >= 0, z3.Select(a, r) < ALLOC_BASE)))
+      elif key in (('list', 'items'),):
+        i = z3.Int('h0i')
+        e = z3.Select(z3.Select(a, r), i)
+        self.axiom(z3.ForAll([r, i], z3.Implies(Val.is_VR(e), z3.And(Val.r(e) > 0, Val.r(e) < ALLOC_BASE))))
+      elif key in (('dict', 'val'),):
+        k = z3.Const('h0k', Val)
+        e = z3.Select(z3.Select(a, r), k)
+        self.axiom(z3.ForAll([r, k], z3.Implies(Val.is_VR(e), z3.And(Val.r(e) > 0, Val.r(e) < ALLOC_BASE))))
     return a
